@@ -23,7 +23,7 @@ ASSUMPTIONS = [
 ]
 BOUNDS = {"quick": {"term variables": "<=3", "list terms": "<=3", "contract terms": "<=2 a, <=2 g"}, "thorough": {"term variables": "<=3", "list terms": "<=3", "contract terms": "<=2 a, <=3 g"}}
 OPTS = {"quick": {"tier_budget_s": 200, "max_paths": 4000, "job_budget_s": 60, "witness_rate": 0.4}, "thorough": {"tier_budget_s": 1500, "max_paths": 30000, "job_budget_s": 300}}
-REACH = {"quick": ["term", "list", "contract", "eq:True", "eq:False", "edit:outputs", "edit:inputs", "edit:constant", "compound"]}
+REACH = {"quick": ["term", "list", "contract", "eq:True", "eq:False", "edit:outputs", "edit:inputs", "edit:constant", "edit:role", "compound"]}
 
 
 def jobs(tier, seed):
@@ -50,7 +50,7 @@ def jobs(tier, seed):
     out.append({"kind": "var"})
     alphabet = [-2, -1, 1, 2]
     n = 120 if tier == "quick" else 6000
-    edits = ["none", "inputs-order", "inputs", "outputs", "outputs-order", "constant", "coefficient", "term-order", "copy", "drop-term", "simplify-in-place"]
+    edits = ["none", "inputs-order", "inputs", "outputs", "outputs-order", "constant", "coefficient", "term-order", "copy", "drop-term", "simplify-in-place", "role-move"]
     for i in range(n):
         ins, outs = rng.choice([(["x", "u"], ["y"]), (["x"], ["y", "z"]), (["x", "u"], ["y", "z"])])
         c = CS.rand_contract(rng, ins, outs, alphabet, na=(0, 1, 2), ng=(1, 2))
@@ -244,6 +244,14 @@ def run(ctx, job):
         differ = z3.BoolVal(True)
     elif edit == "outputs":
         c2 = PolyhedralIoContract(c1.a, c1.g, c1.inputvars, c1.outputvars + [B.Var("extra")], simplify=False)
+        differ = z3.BoolVal(True)
+    elif edit == "role-move":
+        # the same variables in the same overall order, one of them an input on one side and an output on the other
+        m = B.Var("m")
+        c1 = PolyhedralIoContract(c1.a, c1.g, c1.inputvars + [m], c1.outputvars, simplify=False)
+        c2 = PolyhedralIoContract(c1.a, c1.g, c1.inputvars[:-1], [m] + c1.outputvars, simplify=False)
+        if job["pick"] < 0.5:
+            c1, c2 = c2, c1
         differ = z3.BoolVal(True)
     elif edit == "constant":
         k = int(job["pick"] * len(g_rows))
